@@ -126,6 +126,11 @@ fn generated_case(ctx: &Ctx, ch: &mut Ch) -> Outcome {
         _ => p.s.clone(),
     };
     let text = sast::print_plain(&s);
+    if p.features.contains("parameter captured by a local function before its type is fixed") {
+        // (how often the late-typed shape survives erasure: both annotations gone)
+        let both = text.contains("late") && !text.contains(" : ") || text.split("late").skip(1).all(|rest| !rest.trim_start_matches(|c: char| c.is_alphanumeric()).trim_start().starts_with(':'));
+        ctx.class(if both { "program with a parameter captured by a local function before its type is fixed (its annotations erased)" } else { "program with a parameter captured by a local function before its type is fixed" });
+    }
     check_text(ctx, &text, crate::checks::c02::step_budget(ctx.tier))
 }
 
